@@ -148,6 +148,7 @@ async fn serve(victim: &Peer, room: Uid, items: &[Offered], rng: &mut StdRng) ->
                     verifying_key: d.verifying_key.clone(),
                     signature: d.signature.clone(),
                     entity_name: None,
+            enable_full_text: false,
                 };
                 fs.node_deletions.entry(k).or_default().push(copy);
                 max_day = max_day.max(day_of(d.deletion_date));
